@@ -135,3 +135,10 @@ def _bind_to_random_port(self, base_addr, *a, **k):
 
 
 Socket.bind_to_random_port = _bind_to_random_port
+
+
+def __getattr__(name):
+    """Any other zmq constant the code may start to use (socket options, flags): an opaque integer, so that using one is not an error here."""
+    if name.isupper():
+        return 1000 + sum(map(ord, name)) % 1000
+    raise AttributeError(name)
